@@ -69,8 +69,10 @@ def balanced (nv : Nat) (idx : Array Nat) : String :=
   else boolStr fast
 
 /-- `closed`, or exactly the fine-resolution weld pinch (known finding C09-weld-pinch-fine-resolution): balanced, no
-    degenerate face, and every directed edge that occurs more than once joins two vertices that both lie within the weld
-    radius (1.1e-3 world units per coordinate = `1.1e-3·cpu` cells) of a lattice corner -/
+    degenerate face, and every directed edge that occurs more than once has an END POINT within the weld radius
+    (1.1e-3 world units per coordinate = `1.1e-3·cpu` cells) of a lattice corner — i.e. an end point that is the weld-merge
+    of vertices of several lattice edges through that corner (one merged end point suffices: its partners' edges to a
+    common neighbour coincide) -/
 def closedOrWeldPinch (cpu : Float) (nv : Nat) (idx : Array Nat) (pos : Array Float) : Bool :=
   let tris := trisOf idx
   if idx.size % 3 == 0 && closedFast nv tris then true
@@ -82,7 +84,7 @@ def closedOrWeldPinch (cpu : Float) (nv : Nat) (idx : Array Nat) (pos : Array Fl
       [0, 1, 2].all fun k => let u := pos[3*i+k]! * cpu; (u - u.round).abs ≤ delta
     let fw := sortedNat (tris.flatMap fun t => #[t.1 * n + t.2.1, t.2.1 * n + t.2.2, t.2.2 * n + t.1])
     let dupOk := (List.range (fw.size - 1)).all fun i =>
-      fw[i]! != fw[i+1]! || (nearCorner (fw[i]! / n) && nearCorner (fw[i]! % n))
+      fw[i]! != fw[i+1]! || nearCorner (fw[i]! / n) || nearCorner (fw[i]! % n)
     idx.size % 3 == 0 && nondeg && balancedFast nv tris && dupOk
 
 /-! ### orientation: signed volume -/
